@@ -451,6 +451,18 @@ let rec fold_left f l a0 =
   | [] -> a0
   | b :: t0 -> fold_left f t0 (f a0 b)
 
+(** val existsb : ('a1 -> bool) -> 'a1 list -> bool **)
+
+let rec existsb f = function
+| [] -> false
+| a :: l0 -> (||) (f a) (existsb f l0)
+
+(** val forallb : ('a1 -> bool) -> 'a1 list -> bool **)
+
+let rec forallb f = function
+| [] -> true
+| a :: l0 -> (&&) (f a) (forallb f l0)
+
 (** val filter : ('a1 -> bool) -> 'a1 list -> 'a1 list **)
 
 let rec filter f = function
@@ -3004,6 +3016,268 @@ let is_mat_mat i0 i1 =
       (add (add (length i0) (length i1)) (Stdlib.Int.succ 0)) i0 i1 nc
       (sub (length i0) (Stdlib.Int.succ 0)) 0)
 
+(** val mem_nat : int -> int list -> bool **)
+
+let mem_nat x l =
+  existsb (fun y -> (=) y x) l
+
+(** val pair_cost : int list -> int list -> int list -> int list -> int **)
+
+let pair_cost i j dI dJ =
+  mul (prod0 dI)
+    (prod0
+      (map snd (filter (fun ld -> negb (mem_nat (fst ld) i)) (combine j dJ))))
+
+(** val res_labels : int list -> int list -> int list **)
+
+let res_labels =
+  out_labels
+
+(** val res_dims :
+    int list -> int list -> int list -> int list -> int list **)
+
+let res_dims =
+  out_dims
+
+(** val concat_labels : int list -> int list -> int list **)
+
+let concat_labels i j =
+  uniq (app i j)
+
+(** val concat_dims :
+    int list -> int list -> int list -> int list -> int list **)
+
+let concat_dims i j dI dJ =
+  map (fun l -> ext_of l (app i j) (app dI dJ)) (uniq (app i j))
+
+(** val argmin2 : int -> int -> int **)
+
+let argmin2 m n0 =
+  if Nat.ltb m n0 then 0 else Stdlib.Int.succ 0
+
+(** val argmin3 : int -> int -> int -> int **)
+
+let argmin3 m n0 r =
+  let p = Nat.min m n0 in
+  if (<=) p (Nat.min p r)
+  then argmin2 m n0
+  else add (argmin2 p r) (Stdlib.Int.succ 0)
+
+(** val argmin4 : int -> int -> int -> int -> int **)
+
+let argmin4 a b c d =
+  let p = Nat.min a b in
+  if (<=) p (Nat.min p (Nat.min c d))
+  then argmin2 a b
+  else add (argmin3 p c d) (Stdlib.Int.succ 0)
+
+(** val triplet_costs :
+    int list -> int list -> int list -> int list -> int list -> int list ->
+    int list **)
+
+let triplet_costs i0 i1 i2 d0 d1 d2 =
+  (add (pair_cost i0 i1 d0 d1)
+    (pair_cost (res_labels i0 i1) i2 (res_dims i0 i1 d0 d1) d2)) :: (
+    (add (pair_cost i0 i2 d0 d2)
+      (pair_cost (res_labels i0 i2) i1 (res_dims i0 i2 d0 d2) d1)) :: (
+    (add (pair_cost i1 i2 d1 d2)
+      (pair_cost (res_labels i1 i2) i0 (res_dims i1 i2 d1 d2) d0)) :: (
+    (pair_cost (concat_labels i0 i1) i2 (concat_dims i0 i1 d0 d1) d2) :: [])))
+
+(** val which_variant :
+    int list -> int list -> int list -> int list -> int list -> int list ->
+    int **)
+
+let which_variant i0 i1 i2 d0 d1 d2 =
+  match triplet_costs i0 i1 i2 d0 d1 d2 with
+  | [] -> 0
+  | a :: l ->
+    (match l with
+     | [] -> 0
+     | b :: l0 ->
+       (match l0 with
+        | [] -> 0
+        | c :: l1 ->
+          (match l1 with
+           | [] -> 0
+           | d :: l2 -> (match l2 with
+                         | [] -> argmin4 a b c d
+                         | _ :: _ -> 0))))
+
+(** val staged_labels :
+    int -> int list -> int list -> int list -> int list **)
+
+let staged_labels v i0 i1 i2 =
+  (fun fO fS n -> if n=0 then fO () else fS (n-1))
+    (fun _ -> res_labels (res_labels i0 i1) i2)
+    (fun n0 ->
+    (fun fO fS n -> if n=0 then fO () else fS (n-1))
+      (fun _ -> res_labels i1 (res_labels i0 i2))
+      (fun _ -> res_labels i0 (res_labels i1 i2))
+      n0)
+    v
+
+(** val staged_dims :
+    int -> int list -> int list -> int list -> int list -> int list -> int
+    list -> int list **)
+
+let staged_dims v i0 i1 i2 d0 d1 d2 =
+  (fun fO fS n -> if n=0 then fO () else fS (n-1))
+    (fun _ ->
+    res_dims (res_labels i0 i1) i2 (res_dims i0 i1 d0 d1) d2)
+    (fun n0 ->
+    (fun fO fS n -> if n=0 then fO () else fS (n-1))
+      (fun _ ->
+      res_dims i1 (res_labels i0 i2) d1 (res_dims i0 i2 d0 d2))
+      (fun _ -> res_dims i0 (res_labels i1 i2) d0 (res_dims i1 i2 d1 d2))
+      n0)
+    v
+
+(** val min4 : int list -> int **)
+
+let min4 = function
+| [] -> 0
+| a :: l0 ->
+  (match l0 with
+   | [] -> 0
+   | b :: l1 ->
+     (match l1 with
+      | [] -> 0
+      | c :: l2 ->
+        (match l2 with
+         | [] -> 0
+         | d :: l3 ->
+           (match l3 with
+            | [] -> Nat.min (Nat.min a b) (Nat.min c d)
+            | _ :: _ -> 0))))
+
+(** val triple_then :
+    int list -> int list -> int list -> int list -> int list -> int list ->
+    int list -> int list -> int **)
+
+let triple_then i0 i1 i2 i3 d0 d1 d2 d3 =
+  let v = which_variant i0 i1 i2 d0 d1 d2 in
+  add (min4 (triplet_costs i0 i1 i2 d0 d1 d2))
+    (pair_cost (staged_labels v i0 i1 i2) i3
+      (staged_dims v i0 i1 i2 d0 d1 d2) d3)
+
+(** val quartet_costs :
+    int list -> int list -> int list -> int list -> int list -> int list ->
+    int list -> int list -> int list **)
+
+let quartet_costs i0 i1 i2 i3 d0 d1 d2 d3 =
+  (triple_then i0 i1 i2 i3 d0 d1 d2 d3) :: ((triple_then i0 i1 i3 i2 d0 d1 d3
+                                              d2) :: ((triple_then i0 i2 i3
+                                                        i1 d0 d2 d3 d1) :: (
+    (triple_then i1 i2 i3 i0 d1 d2 d3 d0) :: [])))
+
+(** val which_variant4 :
+    int list -> int list -> int list -> int list -> int list -> int list ->
+    int list -> int list -> int **)
+
+let which_variant4 i0 i1 i2 i3 d0 d1 d2 d3 =
+  match quartet_costs i0 i1 i2 i3 d0 d1 d2 d3 with
+  | [] -> 0
+  | a :: l ->
+    (match l with
+     | [] -> 0
+     | b :: l0 ->
+       (match l0 with
+        | [] -> 0
+        | c :: l1 ->
+          (match l1 with
+           | [] -> 0
+           | d :: l2 -> (match l2 with
+                         | [] -> argmin4 a b c d
+                         | _ :: _ -> 0))))
+
+(** val labels_consistent : int list -> int list -> bool **)
+
+let labels_consistent l d =
+  forallb (fun ld ->
+    forallb (fun ld' ->
+      (||) (negb ((=) (fst ld) (fst ld'))) ((=) (snd ld) (snd ld')))
+      (combine l d)) (combine l d)
+
+(** val pair :
+    scalar -> int list -> int list -> int list -> int list -> (int -> t) ->
+    (int -> t) -> int -> t **)
+
+let pair =
+  einsum_general
+
+(** val network3 :
+    scalar -> int list -> int list -> int list -> int list -> int list -> int
+    list -> (int -> t) -> (int -> t) -> (int -> t) -> int -> t **)
+
+let network3 s i0 i1 i2 d0 d1 d2 a b c =
+  (fun fO fS n -> if n=0 then fO () else fS (n-1))
+    (fun _ ->
+    pair s (res_labels i0 i1) i2 (res_dims i0 i1 d0 d1) d2
+      (pair s i0 i1 d0 d1 a b) c)
+    (fun n0 ->
+    (fun fO fS n -> if n=0 then fO () else fS (n-1))
+      (fun _ ->
+      pair s i1 (res_labels i0 i2) d1 (res_dims i0 i2 d0 d2) b
+        (pair s i0 i2 d0 d2 a c))
+      (fun _ ->
+      pair s i0 (res_labels i1 i2) d0 (res_dims i1 i2 d1 d2) a
+        (pair s i1 i2 d1 d2 b c))
+      n0)
+    (which_variant i0 i1 i2 d0 d1 d2)
+
+(** val declared_dims3 :
+    int list -> int list -> int list -> int list -> int list -> int list ->
+    int list **)
+
+let declared_dims3 i0 i1 i2 d0 d1 d2 =
+  out_dims (app i0 i1) i2 (app d0 d1) d2
+
+(** val stage4 :
+    scalar -> bool -> int list -> int list -> int list -> int list -> int
+    list -> int list -> int list -> int list -> (int -> t) -> (int -> t) ->
+    (int -> t) -> (int -> t) -> bool * (int -> t) **)
+
+let stage4 s first ia ib ic iw da db dc dw a b c w =
+  let l = staged_labels (which_variant ia ib ic da db dc) ia ib ic in
+  let dT = declared_dims3 ia ib ic da db dc in
+  let tmp = network3 s ia ib ic da db dc a b c in
+  if first
+  then ((labels_consistent (app l iw) (app dT dw)), (pair s l iw dT dw tmp w))
+  else ((labels_consistent (app iw l) (app dw dT)), (pair s iw l dw dT w tmp))
+
+(** val network4 :
+    scalar -> int list -> int list -> int list -> int list -> int list -> int
+    list -> int list -> int list -> (int -> t) -> (int -> t) -> (int -> t) ->
+    (int -> t) -> bool * (int -> t) **)
+
+let network4 s i0 i1 i2 i3 d0 d1 d2 d3 a b c d =
+  (fun fO fS n -> if n=0 then fO () else fS (n-1))
+    (fun _ -> stage4 s true i0 i1 i2 i3 d0 d1 d2 d3 a b c d)
+    (fun n0 ->
+    (fun fO fS n -> if n=0 then fO () else fS (n-1))
+      (fun _ -> stage4 s false i0 i1 i3 i2 d0 d1 d3 d2 a b d c)
+      (fun n1 ->
+      (fun fO fS n -> if n=0 then fO () else fS (n-1))
+        (fun _ -> stage4 s false i0 i2 i3 i1 d0 d2 d3 d1 a c d b)
+        (fun _ -> stage4 s false i1 i2 i3 i0 d1 d2 d3 d0 b c d a)
+        n1)
+      n0)
+    (which_variant4 i0 i1 i2 i3 d0 d1 d2 d3)
+
+(** val network4_accepts_all :
+    scalar -> int list -> int list -> int list -> int list -> int list -> int
+    list -> int list -> int list -> (int -> t) -> (int -> t) -> (int -> t) ->
+    (int -> t) -> bool **)
+
+let network4_accepts_all s i0 i1 i2 i3 d0 d1 d2 d3 a b c d =
+  (&&)
+    ((&&)
+      ((&&) (fst (stage4 s true i0 i1 i2 i3 d0 d1 d2 d3 a b c d))
+        (fst (stage4 s false i0 i1 i3 i2 d0 d1 d3 d2 a b d c)))
+      (fst (stage4 s false i0 i2 i3 i1 d0 d2 d3 d1 a c d b)))
+    (fst (stage4 s false i1 i2 i3 i0 d1 d2 d3 d0 b c d a))
+
 (** val run_matmul_Z :
     cfg -> ety -> int -> int -> int -> z list -> z list -> z list **)
 
@@ -3316,3 +3590,46 @@ let run_einsum i j dimsA dimsB a b =
 
 let run_classify i j =
   (is_mat_vec i j) :: ((is_vec_mat i j) :: ((is_mat_mat i j) :: []))
+
+(** val run_network3 :
+    int list -> int list -> int list -> int list -> int list -> int list -> z
+    list -> z list -> z list -> int list * (int list * z list) **)
+
+let run_network3 i0 i1 i2 d0 d1 d2 a b c =
+  let od = out_dims (app i0 i1) i2 (app d0 d1) d2 in
+  (((which_variant i0 i1 i2 d0 d1 d2) :: []), (od,
+  (map
+    (Obj.magic network3 zS i0 i1 i2 d0 d1 d2 (fun p ->
+      nth p (Obj.magic a) (Obj.magic Z0)) (fun p ->
+      nth p (Obj.magic b) (Obj.magic Z0)) (fun p ->
+      nth p (Obj.magic c) (Obj.magic Z0))) (seq 0 (prod0 od)))))
+
+(** val run_triplet_costs :
+    int list -> int list -> int list -> int list -> int list -> int list ->
+    int list **)
+
+let run_triplet_costs =
+  triplet_costs
+
+(** val run_network4 :
+    int list -> int list -> int list -> int list -> int list -> int list ->
+    int list -> int list -> z list -> z list -> z list -> z list -> int
+    list * (bool list * z list) **)
+
+let run_network4 i0 i1 i2 i3 d0 d1 d2 d3 a b c d =
+  let od = out_dims (app i0 (app i1 i2)) i3 (app d0 (app d1 d2)) d3 in
+  let r =
+    network4 zS i0 i1 i2 i3 d0 d1 d2 d3 (fun p ->
+      nth p (Obj.magic a) (Obj.magic Z0)) (fun p ->
+      nth p (Obj.magic b) (Obj.magic Z0)) (fun p ->
+      nth p (Obj.magic c) (Obj.magic Z0)) (fun p ->
+      nth p (Obj.magic d) (Obj.magic Z0))
+  in
+  (((which_variant4 i0 i1 i2 i3 d0 d1 d2 d3) :: (quartet_costs i0 i1 i2 i3 d0
+                                                  d1 d2 d3)),
+  (((fst r) :: ((network4_accepts_all zS i0 i1 i2 i3 d0 d1 d2 d3 (fun p ->
+                  nth p (Obj.magic a) (Obj.magic Z0)) (fun p ->
+                  nth p (Obj.magic b) (Obj.magic Z0)) (fun p ->
+                  nth p (Obj.magic c) (Obj.magic Z0)) (fun p ->
+                  nth p (Obj.magic d) (Obj.magic Z0))) :: [])),
+  (if fst r then map (snd (Obj.magic r)) (seq 0 (prod0 od)) else [])))
